@@ -141,3 +141,28 @@ func VerifInstallRootRepo(store interface{}, v dvid.VersionID) (dvid.UUID, dvid.
 	m.branchToUUID[string(r.uuid)+"master"] = r.uuid
 	return r.uuid, v
 }
+
+// VerifNewData builds a bare data instance (helper for harnesses in other packages).
+func VerifNewData(name dvid.InstanceName, id dvid.InstanceID, versioned bool) *Data {
+	return &Data{name: name, id: id, unversioned: !versioned, dataUUID: "dddddddddddddddddddddddddddddddd"}
+}
+
+// VerifAddData registers a data service with the repo holding uuid; VerifSetLocked sets a node's commit flag.
+func VerifAddData(uuid dvid.UUID, svc DataService) {
+	r := manager.repos[uuid]
+	r.data[svc.DataName()] = svc
+	manager.iids[svc.InstanceID()] = svc
+}
+
+func VerifSetLocked(uuid dvid.UUID, locked bool) {
+	r := manager.repos[uuid]
+	r.dag.nodes[manager.uuidToVersion[uuid]].locked = locked
+}
+
+// VerifChooseDAG explores DAG shapes (see vChooseDAG), installs the manager and returns the version ids (index 1..n)
+// together with the proper-ancestor relation, for harnesses living in data type packages.
+func VerifChooseDAG(n, maxPar int) ([]dvid.VersionID, func(a, b int) bool) {
+	d := vChooseDAG(n, maxPar)
+	d.vInstall(nil)
+	return d.vids, d.anc
+}
